@@ -420,6 +420,11 @@ def causality(case, inv, G, labels):
         uts, uss = hists[u]
         vts, vss = hists[v]
         src_sts = {status_at(uts, uss, t)} if disc else _statuses_around(uts, uss, t)
+        if u == v and not disc and not generic:
+            # a node "infecting itself" along a self-loop: the status it enters last at t
+            # is the product of this very entry and cannot also be what made it infectious
+            seq = [_status_before(uts, uss, t)] + [s for x, s in zip(uts, uss) if x == t]
+            src_sts = set(seq[:-1])
         chg = _changes_at(vts, vss, tc)
         if not generic:
             # EoN's histories are lossy at the instant tmin: a node infected at
